@@ -329,7 +329,11 @@ def run(tier, seed):
     for n in unknown_consts: broken.append('translator (constants): constant %s() has no named quantity / theorem' % n)
 
     # 2. prove
-    rc, build_out, build_s = lake_build(['GlmVerif.Props.' + PROP, 'drv_c11'])
+    rc, build_out, build_s = lake_build(['GlmVerif.Props.' + PROP])
+    rcd, dbuild_out, dbuild_s = lake_build(['drv_c11'])
+    driver_ok = rcd == 0 and os.path.exists(DRV)
+    if not driver_ok:
+        broken.append('driver drv_c11 does not build (model/driver out of sync?): ' + dbuild_out[-600:])
     all_thms, failing = [], []
     for mod in mods:
         f = os.path.join(LEAN, mod.replace('.', '/') + '.lean')
@@ -358,8 +362,8 @@ def run(tier, seed):
     const_report = {}
     if err:
         broken.append('harness no longer compiles against %s: %s' % (checklib.REPO, err[-800:]))
-    elif not os.path.exists(DRV):
-        broken.append('driver drv_c11 was not built: ' + build_out[-500:])
+    elif not driver_ok:
+        pass
     else:
         # 4a. line protocol (float + double, scalar + vector forms)
         lines_path = os.path.join(CACHE, 'C11.lines')
@@ -391,7 +395,8 @@ def run(tier, seed):
         # 4b. sweeps
         rcops, ops_out = sh([hbin, 'ops'])
         all_ops = ops_out.split()
-        deep = tier == 'thorough' or bool(failing)
+        # a theorem about the functions no longer checks: sweep all 2^32 floats to find a failing input (constants have no inputs)
+        deep = tier == 'thorough' or any(not t.startswith('GlmVerif.C11.Const.') for t in failing)
         ops_mode = [(op, 'thorough' if (deep and op in SCALAR_SWEEP) else 'quick') for op in all_ops]
         sweep_stats, bad_blocks = run_sweeps(hbin, ops_mode)
         exhaustive = deep and not sweep_stats['errors']
@@ -442,7 +447,7 @@ def run(tier, seed):
                                            quantity=QUANTITY[n], value_40_digits=dec, replay='diff/C11.cpp consts'))
             const_report[n] = rep
         # 4d. UBSan replay of the same lines (in-domain inputs only): any runtime error inside glm is a violation
-        hbu, erru = build_harness('UB', ['-O1', '-fsanitize=float-cast-overflow,signed-integer-overflow,shift', '-fno-sanitize-recover=none'])
+        hbu, erru = build_harness('UB', ['-O1', '-fsanitize=float-cast-overflow,signed-integer-overflow,shift'])
         if erru: notes.append('UBSan harness did not build (skipped): ' + erru[-200:])
         else:
             pu = subprocess.run([hbu, 'lines', str(seed), 'quick'], stdout=subprocess.DEVNULL, stderr=subprocess.PIPE, text=True, timeout=3000)
